@@ -14,6 +14,7 @@ HEADER = r'''
 #include "verif_stl.h"
 int verif_thrown;
 vtail verif_last_string; /* ghost: the std::string handed to JSON(val) by parse_string */
+_Bool verif_saw_dot, verif_saw_exp; /* ghosts of parse_number: a '.' / an exponent marker was consumed */
 size_t verif_lemma_outlen; /* ghost: number of bytes json_escape's switch produced for the byte of the lemma */
 #define STR_OK(s) ((s)->len <= 1000000000ul)
 #define STR_REQ(s) (__CPROVER_is_fresh(s, sizeof(vjs)) && STR_OK(s) && __CPROVER_is_fresh((s)->data, (s)->len))
@@ -55,7 +56,14 @@ def rules(nested=False):
     r.add("R9.objins", r"\bObject\[Key\.to_string\(\)\] = Value;", "(void)Key; (void)Value; /* R9: map insert of an opaque value */")
     r.add("R9.arrins", r"\bArray\[index\+\+\] = ", "index++, (void)")
     r.add("R9.ret_string", r"\breturn JSON\(val\);", "{ verif_last_string = val; return VJSON_String; }")
-    r.add("R9.ret_number", r"\breturn JSON\(\(isNegative \? -1 : 1\) \* [^;]*\);", "return VJSON_Number; /* R9: numeric value computation dropped */")
+    # the class of the number is kept (Integral: parse_num<std::int64_t> without a conversion to double; Floating otherwise), its value is dropped
+    r.add("R9.ret_float", r"\breturn JSON\(\(isNegative \? -1 : 1\) \* (?:static_cast<double>\(|chaiscript::parse_num<double>\()[^;]*\);", "return VJSON_Floating; /* R9: numeric value computation dropped */")
+    r.add("R9.ret_int", r"\breturn JSON\(\(isNegative \? -1 : 1\) \* chaiscript::parse_num<std::int64_t>\(val\)\);", "return VJSON_Integral; /* R9: numeric value computation dropped */")
+    # ghost: the lexical events "a decimal point was consumed" / "an exponent marker was consumed" (specification side of the class)
+    r.add("R9.ghost_dot", r"\} else if \(c == '\.' && !isDouble\) \{", "} else if (c == '.' && !isDouble) { verif_saw_dot = 1;")
+    r.add("R9.ghost_exp", r"\bif \(offset < vjs_size\(str\) && \(c == 'E' \|\| c == 'e'\)\) \{", "if (offset < vjs_size(str) && (c == 'E' || c == 'e')) { verif_saw_exp = 1;")
+    r.add("R9.vsize", r"\bval\.size\(\)", "val.len")
+    r.add("R6.digits10", r"\bstd::numeric_limits<std::int64_t>::digits10\b", "18")
     r.add("R9.ret_bool", r"\breturn JSON\((true|false)\);", "return VJSON_Boolean;")
     r.add("R9.ret_null", r"\breturn JSON\(\);", "return VJSON_Null;")
     r.add("R9.parse_num", r"\bchaiscript::parse_num<std::int64_t>\(exp_str\)", "verif_parse_num_i64(&exp_str)")
